@@ -41,6 +41,9 @@ type subject struct {
 	gaps       []int // virtual seconds before each send (channels), last = before close
 }
 
+// what a nil interface value renders as (fmt's "<nil>", auto-escaped)
+const c5nilText = "&lt;nil&gt;"
+
 type idxRanger struct {
 	items []string
 	i     int
@@ -201,7 +204,7 @@ func (g *c5gen) newSubject() *subject {
 	var s *subject
 	kinds := []string{"slice-string", "slice-int", "slice-iface", "array", "ints", "map1", "mapN", "ranger-idx", "ranger-plain", "ptr-slice", "ranger-chan-typed", "ranger-slice-typed"}
 	if g.useChan {
-		kinds = append(kinds, "chan", "chan", "chan")
+		kinds = append(kinds, "chan", "chan", "chan", "chan-iface")
 	}
 	k := kinds[t.Choose(len(kinds))]
 	switch k {
@@ -269,11 +272,16 @@ func (g *c5gen) newSubject() *subject {
 		for i := 0; i < n; i++ {
 			s.elems = append(s.elems, elem{fmt.Sprint(i), fmt.Sprintf("E:y%d_%d", id, i)})
 		}
-	case "chan":
+	case "chan", "chan-iface":
 		s = mk(k)
 		s.consumable, s.index = true, false
 		for i := 0; i < n; i++ {
 			s.elems = append(s.elems, elem{"", fmt.Sprintf("c%d_%d", id, i)})
+		}
+		if k == "chan-iface" && n > 0 {
+			// a channel of interface values, one of which is nil: an element like any other (it renders
+			// as fmt's <nil>), not the end of the channel
+			s.elems[t.Choose(n)].val = c5nilText
 		}
 		for i := 0; i <= n; i++ {
 			// seconds to hours of virtual time; 0 = immediately
@@ -868,6 +876,27 @@ func c5vars(subs []*subject, mixed []*c5mixed, ifaces []*c5iface, p *Probes, cha
 				xs = append(xs, strings.TrimPrefix(e.val, "E:"), "skipped")
 			}
 			vm.Set(s.name, xs)
+		case "chan-iface":
+			ch := make(chan interface{})
+			vm.Set(s.name, ch)
+			*chans = append(*chans, reflect.ValueOf(ch))
+			s := s
+			go func() {
+				for i, e := range s.elems {
+					if d := s.gaps[i]; d > 0 {
+						time.Sleep(time.Duration(d) * time.Second)
+					}
+					if e.val == c5nilText {
+						ch <- nil
+					} else {
+						ch <- e.val
+					}
+				}
+				if d := s.gaps[len(s.elems)]; d > 0 {
+					time.Sleep(time.Duration(d) * time.Second)
+				}
+				close(ch)
+			}()
 		case "chan":
 			ch := make(chan string)
 			vm.Set(s.name, ch)
